@@ -12,7 +12,11 @@ Proof. reflexivity. Qed.
 (* an index array with repeated entries denotes a set: the array branch of _flatten_dofs returns a duplicate-free list
    with the same elements (fails to compile on a tree where repeated indices are passed through) *)
 Lemma gen_flatten_array_correct : flat_correct gen_flatten_array.
-Proof. intros n S HB. exact (dedup_first_set n S HB). Qed.
+Proof.
+  intros n S HB. destruct S as [|a S'].
+  - split; [split; [constructor | intros c []] | intros c; split; intros []].
+  - exact (dedup_first_set n (a :: S') HB).
+Qed.
 Lemma gen_init_bc_is_model : forall n I D, gen_init_bc n I D = init_bc n I D.
 Proof. reflexivity. Qed.
 Lemma gen_condense_A_is_model : forall R (A : list (list (nat * R))) I, gen_condense_A A I = condense_A A I.
